@@ -794,8 +794,9 @@ public:
 		if (opt.replica_check && opt.model_check && !vd.failed()) replica_compare();
 		if (opt.hygiene_check) for (auto &h : simk::K().hygiene) vd.add("C07/hygiene", h);
 		simk::K().hygiene.clear();
-		size_t a = cjet_get_alloc_size();
+		size_t a = std::max(cjet_get_alloc_size(), simk::K().max_accounted);
 		if (a > max_alloc_seen) max_alloc_seen = a;
+		if (opt.cap_check && a > heap_cap()) vd.add("C07/heap-cap-exceeded", std::to_string(a) + " bytes accounted, cap " + std::to_string(heap_cap()));
 		if (custom_check) custom_check(*this);
 		exp = model::StepExp(); have_alt = false;
 	}
@@ -844,6 +845,8 @@ public:
 		return true;
 	}
 
+	size_t heap_cap() const { return (sc.variant == "small" ? 64 : 20480) * 1024u; }
+
 	void take_baseline()
 	{
 		simk::Kernel &k = simk::K();
@@ -879,6 +882,7 @@ public:
 			// orderly end
 			if (opt.serve_probe) {
 				phase = PROBE;
+				k.faults.clear(); // the probe is a healthy connection
 				probe_conn = (int)cc.size();
 				CConn c; c.transport = 0; c.kc = k.connect(simk::EP_RAW, 0); cc.push_back(c);
 				k.send(c.kc, codec::raw_frame("{\"id\":\"probe\",\"method\":\"info\"}"));
